@@ -169,10 +169,10 @@ func init() {
 	Props["C13"] = &PropSpec{
 		ID: "C13", Level: "exploration",
 		Technique: "deterministic simulation: freelist ledger (expected multiset of superseded locations vs entries observed in the freelist file plus every batch captured at the hand-over rename) over seeded sequential histories with GC relocation and clean restarts, and over seeded schedules of disjoint-key writers + flusher + a GC task hammering the hand-over",
-		Rule: "sequential class (65%): generated history on the multihash primary with overwrites, removals, flushes, index/primary GC cycles (relocation thresholds 0..101, interrupted cycles), clean restarts; before/after every call and GC cycle the harness reads each key's current location through Index.Get; at every flushed checkpoint: multiset(expected freed) = multiset(freelist file) + multiset(all batches handed to GC), nothing recorded twice, no current location recorded, nothing recorded for new-key Put / rejected Put / absent Remove (locations that never were current, i.e. copies GC could not index, are exempt); concurrent class (35%): 2-4 writers on disjoint key sets, flusher, Flush client, GC client with relocation disabled (threshold 101), same checks after join + Flush, after one more cycle and after a clean restart; " +
+		Rule: "sequential class (65%): generated history on the multihash primary with overwrites, removals, flushes, index/primary GC cycles (relocation thresholds 0..101, interrupted cycles), clean restarts; before/after every call and GC cycle the harness reads each key's current location through Index.Get; at every flushed checkpoint: multiset(expected freed) = multiset(freelist file) + multiset(all batches handed to GC), nothing recorded twice, no current location recorded, nothing recorded for new-key Put / rejected Put / absent Remove (locations that never were current, i.e. copies GC could not index, are exempt); concurrent class (35%): 2-4 writers on disjoint key sets, flusher, Flush client, GC client with relocation disabled (threshold 101), same checks after join + Flush, after one more cycle and after a clean restart; crash class (15% of the non-concurrent cases): a sequential history with frequent, partly interrupted primary GC cycles is crashed at every mutating file operation on the freelist file or its .gc hand-over file (<= 40 per history, + 6 others, torn appends included); after recovery and three complete primary GC cycles every entry the freelist file or the hand-over file durably held at the crash, whose record was intact in the image, must be marked deleted or gone; relocating-GC class of the concurrent cases (40%): structural check instead of the multiset comparison (nothing recorded twice, no current location recorded, every intact unreferenced primary record recorded); " +
 			"non-trivial = at least one location was superseded and at least one ledger checkpoint ran; distinct = distinct (plan hash, schedule hash)",
 		Nontrivial: func(o *RunOut) bool {
-			return o.Probes["superseded"]+o.Probes["relocated"] > 0 && o.Probes["ledger-check"] > 0
+			return (o.Probes["superseded"]+o.Probes["relocated"] > 0 && o.Probes["ledger-check"] > 0) || o.Probes["crash-ledger-check"] > 0
 		},
 		Assumptions: []string{
 			"clean restarts only (a crash loses the in-memory freelist pool: not promised by the statement's restart clause)",
